@@ -7,7 +7,7 @@
 
 use std::fmt::Debug;
 
-use lightmotif::abc::{Dna, Protein};
+use lightmotif::abc::{Alphabet, Dna, Protein};
 use lightmotif::dense::{MatrixCoordinates, MatrixElement};
 use lightmotif::num::{PositiveLength, U1, U16, U2, U32, U4, U48, U64};
 use lightmotif::pli::dispatch::Dispatch;
@@ -201,6 +201,43 @@ impl MCfg {
     }
 }
 
+fn tail_reuse_ops() -> Vec<cfgs::HOp> {
+    use cfgs::HOp;
+    vec![HOp::Stripe(0), HOp::Stripe(1), HOp::Stripe(2), HOp::Stripe(3), HOp::Score(0), HOp::Score(1)]
+}
+
+/// One `tail_reuse` history under one configuration.
+fn tail_reuse_one(cfg: Cfg, h: &[cfgs::HOp]) -> Result<(), (String, String)> {
+    let seqs: Vec<Vec<u8>> = vec![vec![2u8; 64], (0..40).map(|i| [0u8, 1, 3][i % 3]).collect(), (0..70).map(|i| ((i * 7) % 4) as u8).collect(), vec![]];
+    let mats: Vec<Vec<Vec<f32>>> = vec![c01::make_matrix("int", 1, 5, 0), c01::make_matrix("int", 4, 5, 0)];
+    let syms: Vec<Vec<<Dna as Alphabet>::Symbol>> = seqs.iter().map(|x| model::to_symbols::<Dna>(x)).collect();
+    let pssms: Vec<_> = mats.iter().map(|m| model::scoring::<Dna>(m)).collect();
+    match catch(|| cfgs::history_f32::<Dna>(cfg, &syms, &pssms, h)) {
+        Err(p) => Err((format!("C07 tail_reuse {} panic {}", cfg.name(), vx_core::util::panic_class(&p)), format!("panic: {}", p))),
+        Ok(None) => Ok(()),
+        Ok(Some(snap)) => {
+            let l = seqs[snap.seq].len();
+            let m = mats[snap.motif].len();
+            let valid = if l >= m { l - m + 1 } else { 0 };
+            let c = cfg.lanes();
+            let r = snap.seq_rows;
+            for rr in 0..snap.rows {
+                for col in 0..c {
+                    let p = col * r + rr;
+                    let v = snap.cells[rr * c + col];
+                    if p >= valid && v != f32::NEG_INFINITY {
+                        return Err((
+                            format!("C07 tail_reuse {} tail not -inf", cfg.name()),
+                            format!("cell (row {}, col {}) = position {} is past the last valid position {} of the current sequence (L={}, M={}) but holds {}", rr, col, p, valid as i64 - 1, l, m, v),
+                        ));
+                    }
+                }
+            }
+            Ok(())
+        }
+    }
+}
+
 pub fn all_mcfgs() -> Vec<MCfg> {
     let mut v = vec![MCfg::Gen(32), MCfg::Gen(1), MCfg::Gen(2), MCfg::Gen(4), MCfg::Gen(16), MCfg::Sse(16), MCfg::Sse(32), MCfg::Avx, MCfg::Gen(64), MCfg::Sse(48), MCfg::Sse(64)];
     for a in cfgs::FORCED {
@@ -226,7 +263,7 @@ thread_local! {
     /// When set, the matrix is declared with FEWER valid positions (max_index) than it has cells, as every real
     /// score matrix of a sequence whose length is not a multiple of the column count: the cells past max_index
     /// are cells of the matrix all the same (the statement quantifies over cells).
-    static SHORT: std::cell::Cell<bool> = const { std::cell::Cell::new(false) };
+    static SHORT: std::cell::Cell<u8> = const { std::cell::Cell::new(0) };
     /// When set, arg-max is not asked of the library (the 8-bit AVX2 arg-max states its limit of 65535 rows with
     /// a panic); maximum and thresholding, which have no such limit, are still probed.
     static SKIP_ARGMAX: std::cell::Cell<bool> = const { std::cell::Cell::new(false) };
@@ -249,7 +286,12 @@ fn scalar_argmax<T: El, C: PositiveLength>(s: &StripedScores<T, C>) -> Option<(u
 fn build<T: El, C: PositiveLength>(plan: &Plan<T>, bg: &dyn Fn(usize, usize, usize, usize, usize) -> T) -> (StripedScores<T, C>, Vec<T>) {
     let cols = C::USIZE;
     let full = plan.rows * cols;
-    let max_index = if SHORT.with(|x| x.get()) { full.saturating_sub(cols / 2 + 1) } else { full };
+    // 1: fewer valid positions than cells; 2: NO valid position at all (a hand-built matrix: rows, cells, max_index 0)
+    let max_index = match SHORT.with(|x| x.get()) {
+        1 => full.saturating_sub(cols / 2 + 1),
+        2 => 0,
+        _ => full,
+    };
     let s = if SHRUNK.with(|x| x.get()) {
         let junk = plan.planted.first().map(|p| p.2);
         let mut s = cfgs::build_scores::<T, C>(plan.rows + 3, (plan.rows + 3) * cols, |r, c| match junk {
@@ -406,10 +448,12 @@ pub fn check_plan<T: El + Runner<T>>(plan: &Plan<T>, cfg: MCfg, ts: &[T], rep: &
     }
     // ... and, for the pipeline-level entry points, with fewer valid positions than cells (the planted cell may lie
     // past max_index: it is a cell of the matrix all the same)
-    if plan.rows <= 8 && plan.rows > 0 && plan.planted.len() <= 1 && !matches!(cfg, MCfg::Api(_) | MCfg::Unstriped) && !SHORT.with(|x| x.get()) {
-        SHORT.with(|x| x.set(true));
+    if plan.rows <= 8 && plan.rows > 0 && plan.planted.len() <= 1 && !matches!(cfg, MCfg::Api(_) | MCfg::Unstriped) && SHORT.with(|x| x.get()) == 0 {
+        SHORT.with(|x| x.set(1));
         check_plan_inner(plan, cfg, ts, rep, " short-max_index");
-        SHORT.with(|x| x.set(false));
+        SHORT.with(|x| x.set(2));
+        check_plan_inner(plan, cfg, ts, rep, " zero-max_index");
+        SHORT.with(|x| x.set(0));
     }
     check_plan_inner(plan, cfg, ts, rep, "");
 }
@@ -646,7 +690,7 @@ pub fn run(ctx: &mut Ctx, rep: &mut Report) {
             "planted",
             "product: element type {f32,u8} x configuration {generic U1,U2,U4,U16,U32,U64; sse2 U16,U32,U48,U64; avx2 U32; dispatcher arms; StripedScores API under each arm; Scores on the unstriped vector} \
              x rows {0..=40,255,256,257,1000 (+64,100,511,2000,5000 thorough)} x background {all -inf, all -5, all 0, descending ramp (all negative), centred ramp, tiny negative ramp | u8: 0, 7, two ramps} \
-             x maximum planted at every column of every row (rows<=40) or of first/last 3 rows + stride sweep, plus duplicated maxima across column halves/rows x threshold menu (below all, planted value and neighbours, background values, above all); matrices of <= 8 rows are probed both in a fresh buffer and in a reused buffer that held 3 more rows before (stale rows must be invisible) and whose padding was filled, and (pipeline-level entry points) declared with fewer valid positions than cells; \
+             x maximum planted at every column of every row (rows<=40) or of first/last 3 rows + stride sweep, plus duplicated maxima across column halves/rows x threshold menu (below all, planted value and neighbours, background values, above all); matrices of <= 8 rows are probed both in a fresh buffer and in a reused buffer that held 3 more rows before (stale rows must be invisible) and whose padding was filled, and (pipeline-level entry points) declared with fewer valid positions than cells, or with none at all; \
              oracle: scalar scan of the cells read back through the public matrix; non-trivial = rows>0; cases distinct by construction",
         );
         run_planted::<f32>(ctx, rep, &mut base, N_BG_F32, peak_f32, thr_f32);
@@ -710,6 +754,40 @@ pub fn run(ctx: &mut Ctx, rep: &mut Report) {
         }
         SKIP_ARGMAX.with(|x| x.set(false));
     }
+    if ctx.wants("tail_reuse") {
+        rep.space(
+            "tail_reuse",
+            "clause 2 on REUSED objects: ONE StripedSequence (initially 64 x T) re-striped with sequences of 40, 70 and 0 symbols and ONE score buffer, all operation sequences of length 1..=3 over {stripe_into x 4, configure+score_into for motifs of width 1 and 4 with a -inf wildcard column} ending in a scoring operation, under all 14 configurations; \
+             oracle: every float cell past the last valid position of the CURRENT sequence is -inf",
+        );
+        use crate::cfgs::HOp;
+        let ops: Vec<HOp> = tail_reuse_ops();
+        let mut stack: Vec<Vec<HOp>> = ops.iter().map(|&o| vec![o]).collect();
+        while let Some(h) = stack.pop() {
+            if h.len() < 3 {
+                for &o in &ops {
+                    let mut n = h.clone();
+                    n.push(o);
+                    stack.push(n);
+                }
+            }
+            if !matches!(h.last().unwrap(), HOp::Score(_)) {
+                continue;
+            }
+            let idx = base;
+            base += 1;
+            if !ctx.mine(idx) {
+                continue;
+            }
+            for &cfg in cfgs::ALL_CFGS.iter() {
+                rep.eval_distinct(true);
+                if let Err((sig, msg)) = tail_reuse_one(cfg, &h) {
+                    let ops_idx: Vec<usize> = h.iter().map(|o| ops.iter().position(|x| x == o).unwrap()).collect();
+                    rep.violation(sig, msg, || json!({"kind": "tail_reuse", "cfg": cfg.name(), "ops": ops_idx, "history": h.iter().map(|o| format!("{:?}", o)).collect::<Vec<_>>()}));
+                }
+            }
+        }
+    }
     if ctx.wants("tail") {
         rep.space(
             "tail",
@@ -725,6 +803,15 @@ pub fn run(ctx: &mut Ctx, rep: &mut Report) {
 pub fn replay(_ctx: &mut Ctx, rep: &mut Report, v: &Value) {
     rep.space("replay", "replay of one recorded case");
     match v["kind"].as_str().unwrap_or("planted") {
+        "tail_reuse" => {
+            let cfg = Cfg::from_name(v["cfg"].as_str().unwrap()).expect("configuration");
+            let ops = tail_reuse_ops();
+            let h: Vec<cfgs::HOp> = v["ops"].as_array().unwrap().iter().map(|x| ops[x.as_u64().unwrap() as usize]).collect();
+            rep.eval_distinct(true);
+            if let Err((sig, msg)) = tail_reuse_one(cfg, &h) {
+                rep.violation(sig, msg, || v.clone());
+            }
+        }
         "tail" => {
             let case = c01::Case::from_json(v);
             let set: Vec<Cfg> = match v["cfg"].as_str().and_then(Cfg::from_name) {
